@@ -15,6 +15,7 @@ class PathTS(Typestate):
         self.max_len = max_len
         self.max_repeat = max_repeat
         self.paths = set()
+        self.cut = 0
 
     def _push(self, st, tok):
         if tok is None:
@@ -22,6 +23,7 @@ class PathTS(Typestate):
         if len(st) >= self.max_len:
             raise AnalysisBroken("path explosion")
         if st.count(tok) >= self.max_repeat:
+            self.cut += 1
             return None
         return st + (tok,)
 
@@ -49,9 +51,9 @@ class PathTS(Typestate):
         self.paths.add((st, kind, rv, F.render(rnode) if rnode is not None else None))
 
 
-def enumerate_paths(F, select, edge_select=None, max_len=60, max_repeat=2, entry_consts=None):
+def enumerate_paths(F, select, edge_select=None, max_len=60, max_repeat=2, entry_consts=None, start=None):
     ts = PathTS(select, edge_select, max_len, max_repeat)
-    simulate(F, ts, entry_consts=entry_consts)
+    simulate(F, ts, entry_consts=entry_consts, start=start)
     return sorted(ts.paths, key=lambda p: repr(p))
 
 
